@@ -205,6 +205,16 @@ def run(prop, conf, params, tier, seed, broken_gate, only=None):
             nontriv.add(t)
         elif kind == "Ok":
             nontriv.add(t)
+    # the same parser model evaluated inside Coq on a sample (grammar strings first, then arbitrary ones)
+    import eng_coqeval
+    ce = dict(cases=0, agree=0, problems=[])
+    if impl and only is None:
+        lim = 60 if tier == "quick" else 900
+        half = lim // 2
+        pick = list(range(min(half, len(gram)))) + list(range(len(gram), min(len(texts), len(gram) + half)))
+        ce = eng_coqeval.run_parse(prop, [texts[i] for i in pick], [impl[i] if i < len(impl) else "?" for i in pick], lim)
+        for pr in ce["problems"]:
+            mism.append(dict(engine="parse", case="(in-Coq evaluation)", what=pr))
     return dict(
         evaluations=len(texts), distinct_nontrivial=len(nontriv),
         rule="grammar strings: every order and sign of the term subsets of {x, y, constant} with constants from a fixed set, "
@@ -215,6 +225,7 @@ def run(prop, conf, params, tier, seed, broken_gate, only=None):
         samples=[repr(t) for t in texts[:3]] + [repr(t) for t in texts[-3:]],
         findings=findings, mismatches=mism, distribution=dist,
         correspondence=dict(engine="parse", cases=len(texts), disagreements=len(mism),
+                            evaluated_inside_coq=ce["cases"], inside_coq_agree=ce["agree"],
                             strength="bit-exact matrix entries and Ok/Err outcome (NumF instance of model/Parse.v)"),
         searched=len(texts), notes=[])
 
